@@ -6,6 +6,7 @@
      {"ev":"delete","vid":..,"from":..}                      volume.fix.replication plan line
      {"ev":"ecmove","vid":..,"shard":..,"from":..,"to":..,   observer in moveMountedShardToEcNode; tofree/tohas/fromhas =
       "tofree":..,"tohas":..,"fromhas":..}                   the planner's own bookkeeping at that moment
+     {"ev":"phase","name":"volumes"|"racks"}                 which part of ec.balance starts
      {"ev":"final","err":..,"shards":[{srv,vid,bits}],"free":[{srv,n}]}   planner bookkeeping after planning
    A step is consumed only if PlanCheck allows it in the state reached so far.
    Named deviations (known findings) waive exactly one clause for one planner. *)
@@ -24,9 +25,11 @@ TraceReset ==
   /\ IsReset
   /\ srv' = SrvFrom(Ev.servers) /\ vol' = VolFrom(Ev.reps) /\ rep' = RepFrom(Ev.reps) /\ rep0' = RepFrom(Ev.reps)
   /\ ec' = EcFrom(Ev.shards) /\ ec0' = EcFrom(Ev.shards) /\ mode' = Ev.mode /\ phase' = "plan"
-  /\ UNCHANGED <<steps, hist>>
+  /\ hist' = <<>>     \* in the judge: the targets whose missing free slot was excused by C16-shard-dropped
+  /\ UNCHANGED steps
 TraceSkip == SkipStep /\ UNCHANGED vars
 Rest == UNCHANGED <<phase, steps, hist>>
+Rest0 == UNCHANGED <<phase, steps>>
 
 (* Known findings: the deviation that excuses a failing clause of a planned volume move, if any.
    A move may need several (e.g. evacuate moving a 120 volume to a full server). *)
@@ -63,27 +66,37 @@ EcExcuse(c) ==
     [] c = "slot" /\ mode = "ecbalance" /\ Ev.tofree > 0 -> "C16-shard-dropped"
          \* S21 consequence: shards dropped from the bookkeeping still occupy slots, but the planner's
          \* own free-slot counter for the target (tofree) is positive
+    [] c = "slot" /\ mode = "ecbalance" /\ phase = "racks" /\ Ev.tofree <= 0 /\ RackOf(Ev.from) = RackOf(Ev.to) -> "C16-rack-full"
+         \* balanceEcRacks moves to the server with the most free slots of the rack without testing
+         \* that it has any (the planner's own counter is <= 0)
     [] OTHER -> "none"
 TEcMove ==
-  /\ IsEvent("ecmove") /\ Rest
+  /\ IsEvent("ecmove") /\ Rest0
   /\ \E W \in SUBSET {"held", "nodup", "slot", "rack"} :
        /\ EcMove(Ev.vid, Ev.shard, Ev.from, Ev.to, W)
        /\ {EcExcuse(c) : c \in W} \subseteq KF
        /\ used' = used \cup {EcExcuse(c) : c \in W}
+       /\ hist' = IF "slot" \in W /\ EcExcuse("slot") = "C16-shard-dropped" THEN Append(hist, Ev.to) ELSE hist
+
+(* the planner starts its next part: "volumes" (per-volume balancing), "racks" (balanceEcRacks) *)
+TPhase == IsEvent("phase") /\ Strict /\ phase' = Ev.name /\ UNCHANGED <<srv, vol, rep, ec, ec0, rep0, mode, steps, hist>>
 
 EcModes == {"ecbalance", "ecevacuate"}
 TFinal ==
   /\ IsEvent("final") /\ UNCHANGED vars
-  /\ \/ Strict /\ (mode \in EcModes => (Preserved(ec) /\ Preserved(EcFrom(Ev.shards))))
+  /\ \/ Strict /\ hist = <<>> /\ (mode \in EcModes => (Preserved(ec) /\ Preserved(EcFrom(Ev.shards))))
      (* S21: shards picked for a move across racks are removed from the planner's bookkeeping and
         stay removed when no destination is found *)
      \/ Deviate("C16-shard-dropped") /\ mode = "ecbalance"
           /\ Preserved(ec)
           /\ LET B == EcFrom(Ev.shards) IN
-             /\ Keys(B) \subseteq Keys(ec0) /\ Keys(B) # Keys(ec0)
+             /\ Keys(B) \subseteq Keys(ec0) /\ B # ec
              /\ \A k \in Keys(B) : Copies16(B, k[1], k[2]) <= Copies16(ec0, k[1], k[2])
              /\ B \subseteq ec     \* what is left in the bookkeeping is where the plan says it is
+             /\ (ec \ B) \subseteq ec0   \* what was forgotten was never moved: it is where the snapshot had it
+             (* every full target that was excused above really has shards the bookkeeping forgot *)
+             /\ \A i \in DOMAIN hist : \E e \in ec \ B : e.srv = hist[i]
 
-TraceNext == TraceReset \/ TraceSkip \/ TMove \/ TCopy \/ TDelete \/ TEcMove \/ TFinal
+TraceNext == TraceReset \/ TraceSkip \/ TMove \/ TCopy \/ TDelete \/ TEcMove \/ TPhase \/ TFinal
 TraceSpec == TraceInit /\ [][TraceNext]_tvars
 =============================================================================
